@@ -28,7 +28,8 @@ PREDS = {
     "gt5": ("obj_ > 5", lambda v: v > 5), "even": ("obj_ % 2 == 0", lambda v: v % 2 == 0), "mask": ("obj_ & 0x81 == 0x81", lambda v: (v % 2 == 1) & ((v // 128) % 2 == 1)),
     "range": ("(obj_ >= -3) & (obj_ < 100)", lambda v: (v >= -3) & (v < 100)), "ne": ("obj_ != 0", lambda v: v != 0),
 }
-ENUMS = {"e0": {}, "e1": {"only": 7}, "e3": {"zero": 0, "one": 1, "big": 200}, "eneg": {"neg": -1, "top": 127, "low": -128, "mid": 5}}
+ENUMS = {"e0": {}, "e1": {"only": 7}, "e3": {"zero": 0, "one": 1, "big": 200}, "eneg": {"neg": -1, "top": 127, "low": -128, "mid": 5},
+         "ealias": {"idle": 0, "stop": 0, "run": 1, "start": 1, "fault": 7}}      # several labels for one value
 FLAGSETS = {"f0": {}, "f1": {"a": 1}, "f3": {"a": 1, "b": 2, "c": 128}, "fov": {"r": 4, "w": 2, "x": 1, "rwx": 7, "rw": 6}, "fz": {"none": 0, "hi": 0x80}}
 
 
@@ -52,6 +53,10 @@ def instances(tier, seed):
     for c in ("", "00", "4d5a", "ff00ff"):
         out.append(dict(name="Const(bytes %r)" % c, params=dict(kind="constb", c=c)))
     out.append(dict(name="Const(b'ab', Bytes(2))", params=dict(kind="constb2")))
+    for n, c in (("Int8ub", 77), ("Int16ub", 0), ("Int16sl", -2)):
+        out.append(dict(name="compiled Const(%d, %s)" % (c, n), params=dict(kind="constv", sub=n, c=c, compiled=True)))
+    for c in ("4d5a", "00"):
+        out.append(dict(name="compiled Const(bytes %r)" % c, params=dict(kind="constb", c=c, compiled=True)))
     out.append(dict(name="Const over a context-sized sub-construct, built twice", params=dict(kind="constctx")))
     for en in sorted(ENUMS):
         for n in (("Int8ub", "Int8sb", "Int64sl") if en != "eneg" else ("Int8sb", "Int16sb")):
@@ -85,6 +90,13 @@ def instances(tier, seed):
               "Struct('k'/Byte, 's'/Switch(this.k, {{1: {}}}, default=Byte))", "FocusedSeq('a', 'a'/Byte, 'e'/{})", "Union(None, 'a'/Byte, 'e'/{})",
               "Peek(Struct('a'/Byte, {}))", "GreedyRange({}, discard=True)", "Array(1, {}, discard=True)", "RepeatUntil(True, {}, discard=True)", "Struct('r'/GreedyRange(Struct('x'/Byte, {}), discard=True), 't'/Byte)", "Padded(2, {})", "NullTerminated({}, require=False)", "Lazy({})" if False else "Pointer(0, {})"):
         out.append(dict(name="Error inside %s" % w.format("Error"), params=dict(kind="error", source=w.format("Error"))))
+    for w, v in (("Optional(BitStruct('k'/BitsInteger(3), Error, 'v'/BitsInteger(5)))", dict(k=1, v=1)), ("Select(BitStruct('k'/BitsInteger(3), Error, 'v'/BitsInteger(5)), Byte, Pass)", dict(k=1, v=1)),
+                 ("Struct('n'/Byte, 'r'/Optional(Bitwise(Sequence(Nibble, Error))), 't'/Byte)", dict(n=1, r=[1, None], t=2)), ("GreedyRange(BitStruct('k'/Nibble, Error))", [dict(k=1)]),
+                 ("Optional(Bitwise(Struct('a'/BitsInteger(9), Error, 'b'/BitsInteger(7))))", dict(a=1, b=1))):
+        out.append(dict(name="Error in the middle of a transformed region: %s" % w, params=dict(kind="error-region", source=w, value=v)))
+    for src_, kw in (("OneOf(Default(Byte, this.d), [1, 2, 3])", "d"), ("OneOf(Rebuild(Byte, this.d), [1, 2, 3])", "d"), ("Struct('v'/OneOf(Default(Byte, this._params.d), [1, 2, 3]))", "d"),
+                     ("OneOf(Default(Byte, this.d), range(4, 9))", "d"), ("OneOf(Rebuild(Int16ub, this.d * 3), (6, 9, 300))", "d")):
+        out.append(dict(name="validator around a member that builds from nothing: %s" % src_, params=dict(kind="validator-none", source=src_)))
     return out
 
 
@@ -140,6 +152,30 @@ def _error_none(ctx, C, p):
     return "ok"
 
 
+def _error_region(ctx, C, p):
+    d = mk(C, p["source"])
+    data = ctx.bytes("data", 3)
+    r = api.outcome(d.parse, data)
+    ctx.check("Error aborts parsing with ExplicitError (got %s)" % (type(r.exc).__name__ if not r.ok else "a value"), (not r.ok) and isinstance(r.exc, C.ExplicitError))
+    r = api.outcome(d.build, p["value"])
+    ctx.check("Error aborts building with ExplicitError (got %s)" % (type(r.exc).__name__ if not r.ok else "bytes"), (not r.ok) and isinstance(r.exc, C.ExplicitError))
+    return "ok"
+
+
+def _validator_none(ctx, C, p):
+    """a validator never lets out on build what it refuses on parse, whatever its member makes up when given nothing"""
+    d = mk(C, p["source"])
+    x = ctx.int("d", 0, 255)
+    obj = dict() if p["source"].startswith("Struct") else None
+    r = api.outcome(d.build, obj, d=x)
+    if not r.ok:
+        ctx.check("refusal is a ValidationError (got %s)" % type(r.exc).__name__, isinstance(r.exc, C.ValidationError))
+        return "refused"
+    back = api.outcome(d.parse, r.value, d=x)
+    ctx.check("what build emitted is admitted by parse", back.ok)
+    return "emitted"
+
+
 def _enum_foreign(ctx, C, p):
     """a label object carries a name: another Enum translates it through ITS table (or refuses it), never through the number it came with"""
     e1, e2 = mk(C, "Enum(Byte, a=1, b=2)"), mk(C, "Enum(Byte, a=5, c=7, b=2)")
@@ -165,6 +201,8 @@ def _constv(ctx, C, p):
     n, c = p["sub"], p["c"]
     size, signed, order = name_info(n)
     d = mk(C, "Const(%d, %s)" % (c, n))
+    if p.get("compiled"):
+        d = d.compile()
     enc = mkbytes(enc_int(c, size, signed, order))
     data = ctx.bytes("data", size)
     r = api.outcome(d.parse, data)
@@ -178,12 +216,19 @@ def _constv(ctx, C, p):
     other = ctx.int("other", lo - 2, hi + 2)
     ctx.assume(other != c)
     r = api.outcome(d.build, other)
-    ctx.check("any other supplied value is refused with ConstError", (not r.ok) and isinstance(r.exc, C.ConstError))
+    if p.get("compiled"):
+        # generated code omits the comparison of a supplied value (docs/compilation.rst: "some checks are omitted by generated
+        # code"); what it must still do is emit the constant and nothing else
+        ctx.check("compiled: whatever is supplied, only the constant's encoding is ever emitted", (not r.ok) or ctx.fork(ctx.eq(r.value, enc)))
+    else:
+        ctx.check("any other supplied value is refused with ConstError", (not r.ok) and isinstance(r.exc, C.ConstError))
     for falsy in (0, False, b"", "", [], 0.0):
-        if falsy != c:
+        if falsy != c and not p.get("compiled"):
             r = api.outcome(d.build, falsy)
             ctx.check("falsy value %r is refused" % (falsy,), (not r.ok) and isinstance(r.exc, C.ConstError))
     s = mk(C, "Struct('sig'/Const(%d, %s), 'v'/Byte)" % (c, n))
+    if p.get("compiled"):
+        s = s.compile()
     v = ctx.int("v", 0, 255)
     ctx.check("a Struct member Const builds without a value", ctx.eq(s.build(dict(v=v)), enc + mkbytes([v])))
     return "ok"
@@ -192,6 +237,8 @@ def _constv(ctx, C, p):
 def _constb(ctx, C, p):
     c = bytes.fromhex(p["c"])
     d = mk(C, "Const(%r)" % c)
+    if p.get("compiled"):
+        d = d.compile()
     data = ctx.bytes("data", len(c))
     r = api.outcome(d.parse, data)
     if ctx.fork(ctx.eq(data, c)):
@@ -202,12 +249,17 @@ def _constb(ctx, C, p):
     other = ctx.bytes("other", max(1, len(c)))
     ctx.assume(api.not_term(ctx.eq(other, c)))
     r = api.outcome(d.build, other)
-    ctx.check("any other supplied bytes are refused with ConstError", (not r.ok) and isinstance(r.exc, C.ConstError))
+    if p.get("compiled"):
+        ctx.check("compiled: whatever is supplied, only the constant is ever emitted", (not r.ok) or ctx.fork(ctx.eq(r.value, c)))
+    else:
+        ctx.check("any other supplied bytes are refused with ConstError", (not r.ok) and isinstance(r.exc, C.ConstError))
     if c:
         r = api.outcome(d.build, b"")
-        ctx.check("empty bytes are refused", (not r.ok) and isinstance(r.exc, C.ConstError))
-        r = api.outcome(d.parse, data[:len(c) - 1])
-        ctx.check("short input is rejected", (not r.ok) and isinstance(r.exc, C.StreamError))
+        if not p.get("compiled"):
+            ctx.check("empty bytes are refused", (not r.ok) and isinstance(r.exc, C.ConstError))
+        if not p.get("compiled"):      # compiled fields do not check short reads (documented)
+            r = api.outcome(d.parse, data[:len(c) - 1])
+            ctx.check("short input is rejected", (not r.ok) and isinstance(r.exc, C.StreamError))
     return "ok"
 
 
@@ -416,14 +468,16 @@ def _enum(ctx, C, p):
             hit = k
             break
     if hit is not None:
-        ctx.check("a mapped integer parses to its label", isinstance(got, str) and str(got) == hit and int(got) == table[hit])
+        ctx.check("a mapped integer parses to a label declared for it", isinstance(got, str) and str(got) in [k for k, v in table.items() if v == table[hit]] and int(got) == table[hit])
         ctx.check("the parsed label builds back to the same bytes", ctx.eq(d.build(got), data))
     else:
         ctx.check("an unmapped integer of any magnitude is preserved", ctx.eq(got, plain))
         ctx.check("the preserved integer builds back to the same bytes", ctx.eq(d.build(got), data))
     for k, v in table.items():
-        ctx.check("label %s builds its value" % k, ctx.eq(d.build(k), getattr(C, n).build(v)))
-        ctx.check("attribute spelling builds its value", ctx.eq(d.build(getattr(d, k)), getattr(C, n).build(v)))
+        rk = api.outcome(d.build, k)
+        ctx.check("label %s builds its value (got %s)" % (k, "bytes" if rk.ok else type(rk.exc).__name__), rk.ok and ctx.fork(ctx.eq(rk.value, getattr(C, n).build(v))))
+        ra = api.outcome(lambda: d.build(getattr(d, k)))
+        ctx.check("attribute spelling of %s builds its value (got %s)" % (k, "bytes" if ra.ok else type(ra.exc).__name__), ra.ok and ctx.fork(ctx.eq(ra.value, getattr(C, n).build(v))))
     for bad in ("nosuch", "", "one|zero", "ONE"):
         if bad not in table:
             r = api.outcome(d.build, bad)
